@@ -178,6 +178,29 @@ class Registry:
                     self.decls.append(d)
                     local_decls[d.attr] = d
 
+    def _registering_wrapper(self, ci, fn, wrapper: str) -> Optional[str]:
+        name = wrapper.split('.')[-1]
+        cands = [n for n in ast.walk(fn.node) if isinstance(n, ast.FunctionDef) and n.name == name and n is not fn.node]
+        if not cands and name in ci.methods:
+            cands = [ci.methods[name].node]
+        if not cands and name in ci.module.functions:
+            cands = [ci.module.functions[name].node]
+        if len(cands) != 1:
+            return None
+        h = cands[0]
+        params = [a.arg for a in h.args.args if a.arg not in ('self', 'cls')]
+        rets = [r for r in ast.walk(h) if isinstance(r, ast.Return) and r.value is not None]
+        if not params or len(rets) != 1 or not isinstance(rets[0].value, ast.Name) or rets[0].value.id not in params:
+            return None
+        pn = rets[0].value.id
+        for st in ast.walk(h):
+            if isinstance(st, ast.Assign) and len(st.targets) == 1 and isinstance(st.targets[0], ast.Subscript) and isinstance(st.value, ast.Name) \
+                    and st.value.id == pn and norm(st.targets[0].slice) == f'{pn}.Name':
+                dn = dotted_name(st.targets[0].value) or ''
+                if dn.startswith('self.') and dn.endswith('Dict'):
+                    return dn[len('self.'):]
+        return None
+
     def _decl_from_call(self, ci, fn, call: ast.Call, kind: str, earlier: Dict[str, 'Decl']) -> Optional[Decl]:
         # climb: optional wrapper call (parameter_dict_entry / filepath_parameter), then Assign/AnnAssign
         node: ast.AST = call
@@ -222,6 +245,14 @@ class Registry:
                 dict_name = 'ParameterDict'
                 key_attr = attr          # wrapper registers under param.Name
                 key_expr = f'self.{attr}.Name'
+            else:
+                # any helper (closure of the constructor, method, module function) that stores its argument in a dictionary of the object
+                # under the argument's own Name and returns it is a registering wrapper
+                reg_dict = self._registering_wrapper(ci, fn, wrapper)
+                if reg_dict is not None:
+                    dict_name = reg_dict
+                    key_attr = attr
+                    key_expr = f'self.{attr}.Name'
         elif dict_name:
             idiom = 'chained'
         else:
